@@ -15,6 +15,9 @@ pub trait HLabel: LabelType + Ord + 'static {
     fn from_json(v: &Value) -> Option<Self>;
     /// The k-th label of the canonical universe.
     fn nth(k: usize) -> Self;
+    /// A framework with arguments nth(0..m) and the given attacks, obtained by *reading a text*
+    /// with the reader for this label type (ICCMA'23 for usize, Aspartix for String).
+    fn via_reader(m: usize, atts: &[(Self, Self)]) -> Result<crustabri::aa::AAFramework<Self>, String>;
 }
 
 impl HLabel for usize {
@@ -28,6 +31,14 @@ impl HLabel for usize {
     fn nth(k: usize) -> Self {
         k + 1
     }
+    fn via_reader(m: usize, atts: &[(Self, Self)]) -> Result<crustabri::aa::AAFramework<Self>, String> {
+        use crustabri::io::InstanceReader;
+        let mut text = format!("p af {}\n", m);
+        for (a, b) in atts {
+            text.push_str(&format!("{} {}\n", a, b));
+        }
+        crustabri::io::Iccma23Reader::default().read(&mut text.as_bytes()).map_err(|e| format!("{:#}", e))
+    }
 }
 
 impl HLabel for String {
@@ -40,6 +51,17 @@ impl HLabel for String {
     }
     fn nth(k: usize) -> Self {
         format!("a{}", k)
+    }
+    fn via_reader(m: usize, atts: &[(Self, Self)]) -> Result<crustabri::aa::AAFramework<Self>, String> {
+        use crustabri::io::InstanceReader;
+        let mut text = String::new();
+        for k in 0..m {
+            text.push_str(&format!("arg({}).\n", Self::nth(k)));
+        }
+        for (a, b) in atts {
+            text.push_str(&format!("att({},{}).\n", a, b));
+        }
+        crustabri::io::AspartixReader::default().read(&mut text.as_bytes()).map_err(|e| format!("{:#}", e))
     }
 }
 
